@@ -14,12 +14,13 @@ import struct
 M64 = 1 << 64
 MIN, MAX = -(1 << 63), (1 << 63) - 1
 
-E_ZDIV = "Cannot divide by 0"
-E_ZMOD = "Cannot calculate the remainder with a divisor of 0"
-E_SHIFT = "Cannot shift with overflow"
-E_NEGEXP = "int value cannot be rised to a negative power"
-E_INDEX = "index out of bounds"
-E_NEGLEN = "length of an array cannot be negative"
+# error KINDS (variant names of ExecError / Error), not message texts: re-wording a message is harmless
+E_ZDIV = "ZeroDivision"
+E_ZMOD = "ZeroModulo"
+E_SHIFT = "OverflowShift"
+E_NEGEXP = "NegativeExponent"
+E_INDEX = "IndexOutOfBounds"
+E_NEGLEN = "NegativeLength"
 
 
 def wrap(x):
@@ -257,10 +258,10 @@ def judge_twin(case, mine, other):
     if st == "ok" and so == "ok":
         a, b = parse_value(tx), parse_value(to)
         return None if (same(a, b) or tx == to) else f"literal constants give {tx}, hidden constants give {to}"
-    if st == "parse_error" and any(e in tx for e in EXEC_ERRORS):
+    if st == "parse_error" and tx.split("|", 1)[0] in EXEC_ERRORS:
         return None   # permitted: an operation on constants that fails whenever evaluated, reported early
     if st == "exec_error" and so == "exec_error":
-        return None if tx == to else f"literal constants fail with `{tx}`, hidden constants with `{to}`"
+        return None if tx.split("|", 1)[0] == to.split("|", 1)[0] else f"literal constants fail with `{tx}`, hidden constants with `{to}`"
     return f"literal constants: {st}: {tx}; hidden constants: {so}: {to}"
 
 
@@ -268,7 +269,7 @@ def judge(case, status, text):
     """-> None if the observation agrees with the oracle, else a description"""
     exp = case.expect
     if isinstance(exp, Err):
-        if status in ("exec_error", "parse_error") and exp.msg in text:
+        if status in ("exec_error", "parse_error") and text.split("|", 1)[0] == exp.msg:
             return None
         return f"expected error `{exp.msg}`, observed {status}: {text}"
     if status != "ok":
@@ -725,7 +726,7 @@ def fam_control(tier, seed, extra=()):
     c("return/void", "f := (b: bool) -> () | int { if b { return } return 1 }; (f(true), f(false))", (None, 1))
     c("return/in_match", "f := (v: int) -> int { match v { (1) => { return 10 }, => { }, }; return 20 }; (f(1), f(2))", (10, 20))
     # placement rules: a function body is a boundary for break/continue, a loop is not one for return
-    E_BRK, E_CNT = "Break outside loop", "Continue outside loop"
+    E_BRK, E_CNT = "BreakOutsideLoop", "ContinueOutsideLoop"
     c("place/break_top", "break", Err(E_BRK))
     c("place/continue_top", "continue", Err(E_CNT))
     c("place/break_in_fn_in_loop", "i := mut 0; loop { i += 1; f := () -> int { break; return 1 }; if *i > 2 { break } }; *i", Err(E_BRK))
@@ -734,7 +735,7 @@ def fam_control(tier, seed, extra=()):
     c("place/break_in_if_in_loop_ok", "i := mut 0; loop { if true { { break } } }; 7", 7)
     c("place/break_after_loop", "loop { break }; break", Err(E_BRK))
     c("place/break_in_fn_own_loop_ok", "i := mut 0; loop { i += 1; f := () -> int { loop { break }; return 1 }; i += f(); if *i > 3 { break } }; *i", 4)
-    c("place/match_not_covered", "f := (v: int | float) -> int { return match v { x: int => 1, } }; f(1)", Err("All posible values must be covered in match"))
+    c("place/match_not_covered", "f := (v: int | float) -> int { return match v { x: int => 1, } }; f(1)", Err("MatchNotCovered"))
     c("place/match_covered_by_union", "f := (v: int | float) -> int { return match v { x: int => 1, y: float => 2, } }; (f(1), f(1.5))", (1, 2))
     c("match/type_before_value", "f := (v: int | string) -> string { return match v { s: string => s, i: int => \"int\", (0) => \"zero\", } }; (f(0), f(\"a\"))", ("int", "a"))
     c("match/catchall_before_value", "c := mut 0; bump := () -> int { c += 1; return 5 }; r := match 5 { => 1, (bump()) => 2, }; (r, *c)", (1, 0))
@@ -746,7 +747,7 @@ def fam_control(tier, seed, extra=()):
     c("ifset/tuple_lengths", "f := (t: (int, int) | (int, int, int)) -> int { return if p: (int, int) = t 2 else 3 }; (f((1, 2)), f((1, 2, 3)))", (2, 3))
     c("match/array_of_union", "f := (v: [int | string]) -> int { return match v { a: [int] => 1, b: [string] => 2, c: [int | string] => 3, } }; (f([1]), f([\"a\"]), f([1, \"a\"]))", (1, 2, 3))
     c("place/match_array_union_not_covered", "f := (v: [int | string]) -> int { return match v { a: [int] => 1, b: [string] => 2, } }; f([1, \"a\"])",
-      Err("All posible values must be covered in match"))
+      Err("MatchNotCovered"))
     c("loop/unconditional_break_nested", "n := mut 0; for x in [1, 2, 3]~ { loop { n += x; break } }; *n", 6)
     c("loop/unconditional_break_in_while", "i := mut 0; while *i < 3 { i += 1; loop { break } }; *i", 3)
     c("loop/unconditional_break_in_fn", "f := () -> int { loop { break }; return 5 }; f()", 5)
